@@ -412,25 +412,37 @@ func ensureAliasEnumNameTwin(p *synth.Project) {
 	}
 	var en *synth.Enum
 	for i := range p.Enums {
-		if p.Enums[i].Base == "string" && (p.Enums[i].Pkg == "models" || p.Enums[i].Pkg == "shared") {
+		if p.Enums[i].Base == "string" {
 			en = &p.Enums[i]
 			break
 		}
 	}
 	if en == nil {
-		return
+		// no string enum in the project: declare one
+		home := "ctl"
+		if p.Pkg("models") != nil {
+			home = "models"
+		}
+		if p.Enum(home, "Grade") != nil || p.Alias(home, "Grade") != nil || p.Struct(home, "Grade") != nil {
+			return
+		}
+		p.Enums = append(p.Enums, synth.Enum{Name: "Grade", Pkg: home, Base: "string", Values: []synth.EnumConst{{Name: "GradeLow", Lit: `"low"`, Text: "low"}, {Name: "GradeMid", Lit: `"mid"`, Text: "mid"}, {Name: "GradeHigh", Lit: `"high"`, Text: "high"}}})
+		en = &p.Enums[len(p.Enums)-1]
 	}
 	other := ""
 	for _, pk := range p.Pkgs {
-		if pk.Key != en.Pkg && (pk.Key == "models" || pk.Key == "shared") {
+		if pk.Key != en.Pkg && (pk.Key == "models" || pk.Key == "shared" || pk.Key == "ctl") && p.Alias(pk.Key, en.Name) == nil && p.Enum(pk.Key, en.Name) == nil && p.Struct(pk.Key, en.Name) == nil {
 			other = pk.Key
+			if pk.Key != "ctl" {
+				break
+			}
 		}
 	}
-	if other == "" || p.Alias(other, en.Name) != nil || p.Enum(other, en.Name) != nil || p.Struct(other, en.Name) != nil {
+	if other == "" {
 		return
 	}
 	type site struct{ ci, mi int }
-	var eps []site
+	var forAlias, forEnum []site
 	for ci := range p.Controllers {
 		for mi := range p.Controllers[ci].Methods {
 			m := &p.Controllers[ci].Methods[mi]
@@ -440,17 +452,43 @@ func ensureAliasEnumNameTwin(p *synth.Project) {
 					free = false
 				}
 			}
-			if free {
-				eps = append(eps, site{ci, mi})
+			if !free {
+				continue
+			}
+			if synth.Visible(p.Controllers[ci].Pkg, other) {
+				forAlias = append(forAlias, site{ci, mi})
+			}
+			if synth.Visible(p.Controllers[ci].Pkg, en.Pkg) {
+				forEnum = append(forEnum, site{ci, mi})
 			}
 		}
 	}
-	if len(eps) < 2 {
+	if len(forAlias) == 0 || len(forEnum) == 0 {
+		return
+	}
+	// the same method carries both (alias first), another route carries the enum alone: whatever the analysis
+	// remembers per type NAME is then shared between the two declarations
+	var both *site
+	for i := range forAlias {
+		for j := range forEnum {
+			if forAlias[i] == forEnum[j] && both == nil {
+				s := forAlias[i]
+				both = &s
+			}
+		}
+	}
+	if both == nil {
 		return
 	}
 	p.Aliases = append(p.Aliases, synth.Alias{Name: en.Name, Pkg: other, Base: "string"})
-	a, b := eps[0], eps[len(eps)-1]
-	p.Controllers[a.ci].Methods[a.mi].Params = append(p.Controllers[a.ci].Methods[a.mi].Params, synth.Param{GoName: "lvl", In: "query", Type: synth.Named(other, en.Name)})
-	p.Controllers[b.ci].Methods[b.mi].Params = append(p.Controllers[b.ci].Methods[b.mi].Params, synth.Param{GoName: "lvl", In: "query", Type: synth.Named(en.Pkg, en.Name)})
+	m := &p.Controllers[both.ci].Methods[both.mi]
+	m.Params = append(m.Params, synth.Param{GoName: "lvlA", In: "query", Type: synth.Named(other, en.Name)}, synth.Param{GoName: "lvl", In: "query", Type: synth.Named(en.Pkg, en.Name)})
+	for _, s := range forEnum {
+		if s != *both {
+			m2 := &p.Controllers[s.ci].Methods[s.mi]
+			m2.Params = append(m2.Params, synth.Param{GoName: "lvl", In: "query", Type: synth.Named(en.Pkg, en.Name)})
+			break
+		}
+	}
 	p.SetFeature("alias-and-enum-share-a-name-across-packages")
 }
